@@ -52,6 +52,15 @@ class C07(C04):
             h = gen_history(r, 0, maxops=6)
             h["waiters"] = r.choice([2, 3, 4])
             extra.append(h)
+        # many controls pending at once (behind a busy task, behind an armed grace timer): every ticket still resolves
+        for n, held in ((100, "busy"), (300, "timer"), (100, "timer")):
+            ops = [{"at": 0, "op": "start", "yield": True}]
+            ops.append({"at": 10, "op": "run_async", "mark": 0, "dur": 30, "yield": True} if held == "busy" else
+                       {"at": 10, "op": "stop_with_signal", "sig": "Terminate", "grace": 50, "yield": True})
+            ops += [{"at": 20, "op": "run", "mark": k + 1, "yield": False} for k in range(n)]
+            ops[-1]["yield"] = True
+            extra.append({"id": 0, "monitor_only": "depth", "script": {"children": [{"self_exit": None, "ignore_all": True}], "spawn_fail": [], "signal_fail": [], "kill_fail": []},
+                          "ops": ops, "waiters": 2, "tail": 1000})
         c = job_check(self, "thorough" if deep else tier, seed, monitor, extra)
         if not c.errors:
             mt_check(c, "c07", seed, 24 if tier == "quick" and not deep else 300, mt_monitor_tickets)
